@@ -1284,8 +1284,24 @@ impl FromCsv for AnnotationDataSet {
             {
                 dataset.insert(DataKey::new(record.key))?;
             } else {
+                //temporary public IDs map to handles directly, they are stripped and the gaps are restored (like in STAM JSON)
+                let handle_from_temp_id = if dataset.config().strip_temp_ids() {
+                    record
+                        .id
+                        .as_ref()
+                        .filter(|id| id.starts_with("!D"))
+                        .and_then(|id| crate::store::resolve_temp_id(id))
+                } else {
+                    None
+                };
+                if let Some(handle) = handle_from_temp_id {
+                    dataset.pad_data_to_handle(handle)?;
+                }
                 let builder = AnnotationDataBuilder {
-                    id: if record.id.is_none() || record.id.as_ref().unwrap().is_empty() {
+                    id: if record.id.is_none()
+                        || record.id.as_ref().unwrap().is_empty()
+                        || handle_from_temp_id.is_some()
+                    {
                         BuildItem::None
                     } else {
                         BuildItem::Id(record.id.as_ref().unwrap().to_string())
